@@ -290,9 +290,20 @@ def _tname(v):
     return type(v).__name__
 
 
+_flags = []
+
+def source_flags():
+    """(aggr_flushes, raw_clears) as read from the current source (the same Tie A as Gen/C05Flags.v)."""
+    if not _flags:
+        from py2coq import c05flags
+        _flags.append(c05flags.flags())
+    return _flags[0]
+
+
 def explain(history, i, cold=None):
-    """Which recorded hole of the result cache (if any) makes the model of Model/C05Memo.v predict a stale answer at step i.
-    Mirrors sstep with raw_clears = aggr_flushes = false."""
+    """Which hole of the result cache (if any) makes the model of Model/C05Memo.v predict a stale answer at step i.
+    Mirrors sstep with the two flags read from the source."""
+    aggr_flushes, raw_clears = source_flags()
     cache, pending, version = {}, 0, 0
     for j, step in enumerate(history[:i + 1]):
         k = step[0]
@@ -301,7 +312,7 @@ def explain(history, i, cold=None):
             continue                              # a query that raises (translation error) neither flushes nor caches
         if k == 'query':
             q = qkey(step, cold[j] if cold else None)
-            aggregate = step[3] == 'count'
+            aggregate = step[3] == 'count' and not aggr_flushes
             if not aggregate:
                 if pending: version += pending; pending = 0; cache = {}
                 if j == i: return 'raw-sql-write-leaves-query-results' if (q in cache and cache[q] != version) else None
@@ -326,6 +337,7 @@ def explain(history, i, cold=None):
         elif k == 'raw':
             if pending: version += pending; pending = 0; cache = {}
             version += 1
+            if raw_clears: cache = {}
     return None
 
 
